@@ -167,7 +167,13 @@ def run(rep, tier: str, seed: int) -> None:
                 # with a requested start symbol the constant `start` is bound to the initial
                 # tree of that symbol while model values are parsed as <start>: one cause,
                 # whatever the constraint class
-                sig_class = ("requested-start-symbol" if case["start_symbol"] and failure == "violates-constraint"
+                # ... but only constraints that use `start` as a TERM (count(start, ..), str.len(start), start = ..)
+                # are affected; a constraint that names it only as the range of a quantifier (`in start`) is not,
+                # and a wrong solution for such a constraint is reported under its own class
+                import re as _re
+                start_as_term = bool(_re.search(r"\bstart\b", _re.sub(r"\bin\s+start\b", " ", case["text"])))
+                sig_class = ("requested-start-symbol"
+                             if case["start_symbol"] and failure == "violates-constraint" and start_as_term
                              else case["cls"])
                 rep.violation(
                     f"solve:{failure}:{sig_class}",
